@@ -636,7 +636,13 @@ class CompoundInterval(Location):
             raise InvalidPositionException("Relative end must be within the size of the interval")
         # if start == end, then just return a simple interval
         elif relative_start == relative_end:
-            start_on_parent = self.relative_to_parent_pos(relative_start)
+            if relative_start == len(self):
+                # zero-width request at the 3' end: there is no base to map, answer with the 3' boundary
+                # (SingleInterval answers the same request with an empty interval as well)
+                self.strand.assert_directional()
+                start_on_parent = self.start if self.strand == Strand.MINUS else self.end
+            else:
+                start_on_parent = self.relative_to_parent_pos(relative_start)
             return SingleInterval(
                 start_on_parent,
                 start_on_parent,
